@@ -102,8 +102,9 @@ def census(F):
 				_CALLEES[F.dir].setdefault((fl, tail), set()).add(root_fn(cf).rsplit('::', 1)[-1])
 			c = classify(norm(ci.get('f') or '')) or (classify(norm(ci.get('t'))) if ci.get('t') else None)
 			if c and c[1] == 'checked' and c[0] == 'addsub' and _unwrapped_to_bound(fu, ci):
-				# `a.checked_sub(b).unwrap_or(0)` IS `a.saturating_sub(b)` (and `checked_add(..).unwrap_or(MAX)` is saturating_add): same flavour
-				c = (c[0], 'saturating')
+				# `a.checked_sub(b).unwrap_or(0)` IS `a.saturating_sub(b)` (and `checked_add(..).unwrap_or(MAX)` is saturating_add): recorded under a
+				# pseudo-flavour that is not judged itself but lets the judgement below accept checked <-> saturating for this function and group
+				kb = (fl, tail, c[0], 'checked~bound'); tab[kb] += 1
 			if c:
 				k = (fl, tail, c[0], c[1]); tab[k] += 1; where.setdefault(k, (n, fu.line_of(b)))
 	_C[F.dir] = (tab, where, known)
@@ -133,8 +134,22 @@ def rule(F, rule_id, file_res, floor=1):
 			continue
 		if (fl, tail) not in fns or tail not in known.get(fl, ()):
 			continue
+		if fv == 'checked~bound':
+			continue
 		a, b = reviewed.get(k, 0), tab.get(k, 0)
 		n += max(a, b)
+		if (a == 0) != (b == 0) and fv in ('checked', 'saturating'):
+			rb, cb = reviewed.get((fl, tail, g, 'checked~bound'), 0), tab.get((fl, tail, g, 'checked~bound'), 0)
+			other = 'saturating' if fv == 'checked' else 'checked'
+			# checked + unwrap_or(bound) on one side, saturating on the other: the same arithmetic
+			if fv == 'checked' and b == 0 and rb and tab.get((fl, tail, g, other), 0):
+				continue
+			if fv == 'saturating' and a == 0 and rb:
+				continue
+			if fv == 'saturating' and b == 0 and cb:
+				continue
+			if fv == 'checked' and a == 0 and cb and reviewed.get((fl, tail, g, other), 0):
+				continue
 		# judged: a KIND of arithmetic that a function loses or gains altogether (div_ceil -> /, checked -> saturating, the only min becoming a max).
 		# Plain count changes are NOT judged: hoisting a common sub-expression into a local, splitting a match arm or merging two arms changes how
 		# often an operation is written without changing what is computed (three negative controls raised exactly these alarms against the first,
